@@ -373,7 +373,7 @@ var c14SigFaults = []string{"sig-corrupt", "sig-wrong-key", "sig-drop"}
 
 func c14IsEventFault(kind string) bool {
 	switch kind {
-	case "sig-corrupt", "sig-wrong-key", "sig-drop", "sig-extra", "disallow", "other-room", "strip-state-key",
+	case "sig-corrupt", "sig-wrong-key", "sig-drop", "sig-extra", "wire-padded", "disallow", "other-room", "strip-state-key",
 		"truncate", "malformed", "null", "long-room-id", "type-cp", "type-bytes", "big-event":
 		return true
 	}
@@ -451,6 +451,11 @@ func c14Mutate(version string, tree jv, f c14Fault) ([]byte, jv, string) {
 		_, k := vfKeyFor("evil:z.example")
 		out := rsign(version, tree, "z.example", "ed25519:zz", k)
 		return []byte(jplain(out)), out, c14ClassOK
+	case "wire-padded":
+		// the event as it is, sent with white space and a bulky `unsigned` (stripped on receipt): more than
+		// 65 536 bytes on the wire, far less as the event it is
+		txt := jplain(tree)
+		return []byte(txt[:len(txt)-1] + strings.Repeat(" ", 40000) + `,"unsigned":{"pad":"` + strings.Repeat("x", 30000) + `"}}`), tree, c14ClassOK
 	case "disallow":
 		out := c14Swap(version, tree)
 		return []byte(jplain(out)), out, c14ClassOK
